@@ -92,6 +92,13 @@ WEAK = [
     ('write_diff', (b'x\n',), {'encoding': 'nope'}),
     ('write_diff', (b'x\n',), {'encoding': 'ü'}),
     ('write_diff', (b'x\n',), {'encoding': 'base64'}),
+    # Python folds the en dash into a separator: the codec resolves, the
+    # content is prepared, and only the ASCII header cannot be written
+    ('write_preamble', ('x\n',), {'encoding': 'utf\u20138'}),
+    ('write_meta', ({'k': 'v'},), {'encoding': 'utf\u20138'}),
+    ('write_diff', (b'x\n',), {'encoding': 'latin\u20131'}),
+    ('write_preamble', ('x\n',), {'encoding': 'utf-8\u00e9'}),
+    ('new_file', (), {'encoding': 'utf\u20138'}),
 ]
 
 ENCS = [None, None, 'utf-16', 'latin-1', 'utf-32-be']
